@@ -27,7 +27,10 @@ R = Rules(
         "Reset / empty ACK builders use the incoming message ID and the response address; piggy-back bookkeeping "
         "(exactly one timer and only for CON, stored as (mid, handle) under (remote, token) before the request is "
         "handed on, the fired timer retires its own entry and acknowledges under the stored mid, every other removal "
-        "cancels the timer); as_response_address strips the local address iff received on multicast.  Helper methods "
+        "cancels the timer); as_response_address strips the local address iff received on multicast; "
+        "UDP6EndpointAddress.is_multicast / is_multicast_locally are evaluated on concrete representative addresses "
+        "(IPv6 groups, IPv4 groups in v4-mapped form, range edges, unicast) against a model of ipaddress/struct/socket "
+        "that spells out the pre-3.13 and 3.13+ library semantics, and must be True exactly for the groups.  Helper methods "
         "are evaluated whether or not the engine expanded them, so the verdict does not depend on how the functions "
         "are spelled.  The 0.1 s race between handler completion and the empty-ACK timer is not decided."
     ),
@@ -1040,3 +1043,6 @@ R.seed("C10.f", F_MM, "        if message.mtype == CON and message.remote.is_mul
 R.seed("C10.h", "aiocoap/tokenmanager.py", "        request.on_interest_end(\n            functools.partial(self.outgoing_requests.pop, key, None)\n        )\n", "        request.on_interest_end(\n            functools.partial(self.outgoing_requests.pop, (msg.token, msg.remote), None)\n        )\n", "multicast request cleaned up under another key than it is registered under")
 
 R.seed("C10.i", "aiocoap/transports/udp6.py", "        return ipaddress.ip_address(self._plainaddress_local()).is_multicast", "        return ipaddress.IPv6Address(_in6_pktinfo.unpack_from(self.pktinfo)[0]).is_multicast", "v4-mapped multicast groups are not recognised: Reset sent to an IPv4 group")
+R.seed("C10.i", "aiocoap/transports/udp6.py", "        return ipaddress.ip_address(self._plainaddress().split(\"%\", 1)[0]).is_multicast", "        return ipaddress.IPv6Address(self.sockaddr[0]).is_multicast", "the peer's v4-mapped group address is not recognised: CON sent to an IPv4 group")
+R.seed("C10.i", "aiocoap/transports/udp6.py", "        addr, interface = _in6_pktinfo.unpack_from(self.pktinfo)\n\n        return self._strip_v4mapped(addr)", "        addr, interface = _in6_pktinfo.unpack_from(self.pktinfo)\n\n        return str(ipaddress.IPv6Address(addr))", "local address rendered without undoing the v4 mapping: the text of an IPv4 group parses as a non-multicast IPv6 address")
+R.seed("C10.i", "aiocoap/transports/udp6.py", "        if mapped is not None:\n            return str(mapped)\n        return str(address)", "        if mapped is None:\n            return str(mapped)\n        return str(address)", "inverted test in _strip_v4mapped: mapped addresses stay mapped (and plain ones become 'None')")
